@@ -233,6 +233,7 @@ CacheRule(id, tg, tfs) == CacheRuleLit(id, tg, tfs, s_x)
 \* a transformation that is not idempotent, applied once and twice in a row: hexEncode("y") = "79", twice = "3739"
 s_79 == <<55, 57>>
 s_3739 == <<51, 55, 51, 57>>
+FailTfs == {<<"hexDecode", "lowercase">>, <<"hexDecode", "trim", "lowercase">>, <<"lowercase">>}
 RepTfs == {<<"hexEncode">>, <<"hexEncode", "hexEncode">>, <<"lowercase", "hexEncode", "hexEncode">>}
 CacheChain(id, tfs) ==
   MkRule(id, 2, <<RuleLink(<<T("ARGS_GET")>>, << >>, OpLit("contains", s_x), FALSE, << >>),
@@ -243,6 +244,9 @@ CachePicks(maxEntries, rich, slice, slices) ==
    rq : SliceOf(SeqsOfLen(CacheEntries, maxEntries), slice, slices)]
   \cup
   [t1 : RepTfs, g2 : {T("ARGS_GET")}, t2 : RepTfs, third : {"none"}, lit : {s_79, s_3739},
+   rq : SliceOf(SeqsOfLen(CacheEntries, maxEntries), slice, slices)]
+  \cup  \* a step that fails on these values (they are not hexadecimal) in front of steps that work
+  [t1 : FailTfs, g2 : {T("ARGS_GET"), TK("ARGS_GET", s_a)}, t2 : FailTfs, third : {"none"}, lit : {s_x},
    rq : SliceOf(SeqsOfLen(CacheEntries, maxEntries), slice, slices)]
 CacheScen(pk) ==
   MkScen(<<CacheRuleLit(10, T("ARGS_GET"), pk.t1, pk.lit), CacheRuleLit(20, pk.g2, pk.t2, pk.lit)>>
